@@ -84,6 +84,13 @@ Theorem C05_identical_structure :
   (forall k n1 n2, identical (YBasic k n1) (YBasic k n2) = true) /\
   (forall t, identical (YPtr t) t = false) /\ (forall t, identical (YPtr (YPtr t)) (YPtr t) = false).
 Proof. split; [exact identical_alias_l|]. split; [exact identical_ptr|]. split; [exact identical_basic|]. split; [exact identical_ptr_self|exact identical_ptr_depth2]. Qed.
+Theorem C05_signature_matching_exact :
+  forall t i, signatures_match t i = true <->
+    List.length (s_params t) = List.length (s_params i) /\ List.length (s_results t) = List.length (s_results i) /\
+    Forall2 shown_same (tuple_types (s_params t) (s_variadic t)) (tuple_types (s_params i) (s_variadic i)) /\
+    Forall2 shown_same (tuple_types (s_results t) false) (tuple_types (s_results i) false).
+Proof. exact signatures_match_spec. Qed.
+
 Theorem C05_signature_matching :
   (forall s, signatures_match s s = true) /\
   (forall t i, signatures_match t i = true ->
@@ -120,4 +127,5 @@ Print Assumptions C05_one_code_per_annotation.
 Print Assumptions C05_identical_is_equality_of_normal_forms.
 Print Assumptions C05_identical_equivalence.
 Print Assumptions C05_identical_structure.
+Print Assumptions C05_signature_matching_exact.
 Print Assumptions C05_signature_matching.
